@@ -30,7 +30,59 @@ def ptr_sources(f, e, seen=None):
     return out
 
 
+def rule_neighbour_accessors(F, rep):
+    """equivalentVariableCount() / equivalentVariable(i) are how the network search enumerates the neighbours of a variable."""
+    rep.rule('C18.A1', 'the two accessors through which the equivalence search enumerates a variable\'s neighbours agree: equivalentVariableCount() counts the entries of mEquivalentVariables that are still alive, and equivalentVariable(i) '
+                       'finds the i-th LIVE entry by scanning that container from the start with the same liveness test; the scan is not bounded by the requested index (how many dead entries precede the i-th live one is not known in advance - '
+                       'a bound in terms of i skips live neighbours once two entries have expired)')
+    from engines import single_def
+
+    def over_container(f, L):
+        hdr = role(L, 'range') if L.get('k') == 'RangeFor' else role(L, 'cond')
+        if hdr is None:
+            return False
+        txt = render(hdr)
+        for x in walk(hdr):
+            if x.get('k') == 'Ref' and x.get('dk') == 'local':
+                i_ = single_def(f, x.get('d'))
+                if i_ is not None:
+                    txt += ' ' + render(i_)
+        return 'mEquivalentVariables' in txt
+
+    def liveness(f, L):
+        return {c.get('fn') for c in walk(role(L, 'body')) if c.get('k') == 'Call' and c.get('fn') in ('lock', 'expired')} | \
+               {c.get('fn') for c in walk(role(L, 'cond') or {}) if c.get('k') == 'Call' and c.get('fn') in ('lock', 'expired')}
+    cnt = F.fn1('libcellml::Variable::equivalentVariableCount')
+    acc = [g for g in F.fn('libcellml::Variable::equivalentVariable') if len(g.params) == 1 and g.name == 'equivalentVariable']
+    if len(acc) != 1:
+        raise AnalysisBroken('Variable::equivalentVariable(index) vanished (%d)' % len(acc))
+    acc = acc[0]
+    lc = [L for L in cnt.walk() if L.get('k') in ('RangeFor', 'For', 'While') and over_container(cnt, L)]
+    la = [L for L in acc.walk() if L.get('k') in ('RangeFor', 'For', 'While') and over_container(acc, L)]
+    uses_alg = lambda f: any(c.get('k') == 'Call' and c.get('fn') in ('count_if', 'find_if') for c in f.walk())
+    if not la and not uses_alg(acc):
+        raise AnalysisBroken('C18.A1: the scan over mEquivalentVariables in equivalentVariable was not found')
+    if not lc and not uses_alg(cnt):
+        # weak entries expire silently, so the number of live neighbours cannot be known without looking at each entry
+        rep.fail('C18.A1', 'equivalentVariableCount|scan', cnt.where(), 'equivalentVariableCount() no longer looks at the entries of mEquivalentVariables: expired entries are counted, and equivalentVariable(i) returns null for the last indices')
+    pd = acc.params[0].get('d')
+    for L in la:
+        if L.get('k') == 'RangeFor':
+            rep.ok('C18.A1', 'equivalentVariable|scan-bound', acc.where(L), 'range-for over the whole container')
+            continue
+        cnd = role(L, 'cond')
+        by_index = any(x.get('k') == 'Ref' and x.get('d') == pd for x in walk(cnd))
+        rep.check(not by_index, 'C18.A1', 'equivalentVariable|scan-bound', acc.where(L),
+                  'the scan for the i-th live neighbour is bounded by the requested index (`%s`): with two expired entries before a live one that neighbour is never returned, so the search misses part of the network from this side only' % render(cnd)[:70],
+                  'bounded by the container only')
+    if lc and la:
+        a, b = set().union(*[liveness(cnt, L) for L in lc]), set().union(*[liveness(acc, L) for L in la])
+        rep.check(bool(a) and bool(b), 'C18.A1', 'liveness-test', acc.where(la[0]), 'liveness of an entry is tested by %s in equivalentVariableCount and by %s in equivalentVariable: one of them counts expired entries' % (sorted(a) or 'nothing', sorted(b) or 'nothing'),
+                  'both skip expired entries (%s / %s)' % (sorted(a), sorted(b)))
+
+
 def run(F, rep):
+    rule_neighbour_accessors(F, rep)
     rep.rule('C18.K1', 'a memo container keyed by object addresses holds both addresses injectively: key type is a pair/tuple of the operands or has >= 2*bits(uintptr_t) bits')
     f = F.fn1('libcellml::AnalyserModel::areEquivalentVariables')
     rec = F.record('AnalyserModel::AnalyserModelImpl')
